@@ -207,6 +207,21 @@ CHECKS = {
              "save); a new operation name, a new anomaly or a sequential-schedule deviation is still a violation. Pre-emption "
              "inside Go code between storage operations is only covered by the race detector.",
         ref="DESIGN.md 4 C16"),
+    "C09": dict(
+        module="KMUnseal",
+        technique="PlusCal/TLA+ model of the unseal critical section with racing injectors and readers (TLC, all interleavings, "
+                  "+ negative control) ; sealed-route sweep, passphrase/certificate/key-file table and concurrent -race runs on the "
+                  "real injector and handlers ; TLC monitor against the atomic view (KMUnsealSeq)",
+        text="KMUnseal (PlusCal) executes the separate assignments of loadSignersFromPemData inside the mutex for three "
+             "injectors (right / wrong passphrase, with / without certificate, key material that fails to load) against two "
+             "lock-test-unlock-use readers; TLC checks OneTransition, WrongStaysSealed, OnlyRightWithCert, SealedSignsNothing, "
+             "NoHalfInit, PublishedIncludeSigning and ExactlyOneOk over all interleavings, and a reader that skips the mutex "
+             "violates NoHalfInit (control). The implementation is checked against the atomic view: every route of main() on "
+             "a sealed server (nothing signed, not ready), 24 injection shapes on four key-file worlds incl. failed-unseal "
+             "worlds, sequences around a successful unseal, published CA / SSH CA / JWKS versus the keys that really sign, and "
+             "concurrent injectors + requesters under the race detector with call/return order checked for a single transition.",
+        note="The AWS auto-unseal path is not driven (needs AWS Secrets Manager); it calls the same unsealCA.",
+        ref="DESIGN.md 4 C09"),
 }
 PENDING_REASON = "check not built yet in this session (specification module planned in DESIGN.md section 4); not claimed until its check runs clean on the unchanged tree"
 ALL = ["C%02d" % i for i in range(1, 21)]
